@@ -6,6 +6,7 @@ import (
 	"errors"
 	"fmt"
 	"io"
+	"math"
 	"strings"
 
 	"github.com/ipfs/go-cid"
@@ -202,6 +203,10 @@ func GenSelector(r *Rand, g *Graph, depth int, inRec bool, sloppy bool) Val {
 			lim = m1("none", Map())
 		} else {
 			lim = m1("depth", Int(int64(r.Intn(6))-1))
+			if r.Chance(1, 12) {
+				// extreme limits: the arithmetic on them must not wrap
+				lim = m1("depth", Int([]int64{math.MinInt64, math.MinInt64 + 1, math.MaxInt64, math.MaxInt64 - 1, -1 << 40, 1 << 40}[r.Intn(6)]))
+			}
 		}
 		seq := GenSelector(r, g, depth+1, true, sloppy)
 		if !specHasEdge(seq) && !r.Chance(1, 10) {
@@ -209,7 +214,18 @@ func GenSelector(r *Rand, g *Graph, depth int, inRec bool, sloppy bool) Val {
 		}
 		body := Val{K: '{', M: []KV{{[]byte("l"), lim}, {[]byte(":>"), seq}}}
 		if r.Chance(1, 4) && len(g.Order) > 0 {
-			body.M = append(body.M, KV{[]byte("!"), m1("/", Link([]byte(g.Order[r.Intn(len(g.Order))])))})
+			stop := []byte(g.Order[r.Intn(len(g.Order))])
+			if r.Chance(1, 3) {
+				// a link that is NOT in the graph but shares the digest of one that is: another codec, another CID version
+				if c, err := cid.Cast(stop); err == nil {
+					if r.Bool() && c.Prefix().MhType == mh.SHA2_256 && c.Prefix().MhLength == 32 {
+						stop = cid.NewCidV0(c.Hash()).Bytes()
+					} else {
+						stop = cid.NewCidV1([]uint64{0x55, 0x0129, 0x70, 0x71}[r.Intn(4)], c.Hash()).Bytes()
+					}
+				}
+			}
+			body.M = append(body.M, KV{[]byte("!"), m1("/", Link(stop))})
 		}
 		return m1("R", body)
 	default:
